@@ -944,3 +944,16 @@ pub fn rsa_kem_c(pk: &RsaPub, r: &[u8]) -> Vec<u8> {
 pub fn rsa_kem_r(sk: &RsaPriv, c: &[u8]) -> Vec<u8> {
     i2osp(&BigUint::from_bytes_be(c).modpow(&sk.d, &sk.n), 512)
 }
+
+/// The same with CRT (fast), for *constructing* inputs only; the caller verifies r^e == c
+/// with `rsa_kem_c`, so no trust is placed in it.
+pub fn rsa_kem_r_fast(pkcs1_der: &[u8], c: &[u8]) -> MR<Vec<u8>> {
+    use rsa::pkcs1::DecodeRsaPrivateKey;
+    let k = rsa::RsaPrivateKey::from_pkcs1_der(pkcs1_der).map_err(|e| format!("{e}"))?;
+    let r = rsa::hazmat::rsa_decrypt_and_check::<rsa::rand_core::OsRng>(&k, None, &rsa::BigUint::from_bytes_be(c))
+        .map_err(|e| format!("{e}"))?;
+    let b = r.to_bytes_be();
+    let mut out = vec![0u8; 512usize.saturating_sub(b.len())];
+    out.extend_from_slice(&b);
+    Ok(out)
+}
